@@ -1,6 +1,7 @@
 import KoordVerif.Model.C20
 import KoordVerif.Model.C20Hist
 import KoordVerif.Model.C20Race
+import KoordVerif.Model.C20Wire
 import KoordVerif.Generated.C20
 /-
 Tie lemmas for C20: the guard structure extracted from /repo's current source
@@ -75,5 +76,21 @@ theorem tie_section_decoders :
 
 /-- triggerAllNodeEnqueue adds one request per listed node, unfiltered — `cmSync` drains `w.nodes.map (·.1)`. -/
 theorem tie_enqueue_all_nodes : C20.enqueueAllShape = "range Items: q.Add" := by decide
+
+/-! ### wiring (Model/C20Wire.lean) and entry order -/
+
+/-- SetupWithManager watches ConfigMaps and Nodes, hands the ConfigMap events to the very handler it installs as the
+    reconciler's cache, and puts on those two watches (and on the whole controller: WithEventFilter) none of the
+    controller-runtime predicates that look at metadata only - GenerationChangedPredicate (a ConfigMap's generation never
+    changes: every Update would be dropped, `WatchPred.generationChanged`), AnnotationChanged, LabelChanged on the ConfigMap
+    watch; Generation / AnnotationChanged on the Node watch.  Custom predicate functions are not judged here: the executed
+    `wiring` harness runs them.  — `WatchPred.none` / `WatchPred.Sound`. -/
+theorem tie_watch_registrations :
+    "ConfigMap" ∈ C20.watchedKinds ∧ "Node" ∈ C20.watchedKinds ∧ C20.cmWatchHandlerIsCache = true ∧
+    C20.cmWatchDroppingPredicates = [] ∧ C20.nodeWatchDroppingPredicates = [] := by decide
+
+/-- nothing reachable inside the package from syncConfig / getNodeSLOSpec sorts or reverses a slice: the node entries
+    reach the first-match loops in the order encoding/json parsed them (document order) — `mergeSection`'s `ns.map`. -/
+theorem tie_entries_keep_document_order : C20.entryReorderCalls = [] := by decide
 
 end KoordVerif.C20
